@@ -25,6 +25,8 @@ def consts(**over):
 def design(ctx, name, c, invariants, timeout=3000):
     cfg = vlib.write_cfg(os.path.join(ctx.work, name + ".cfg"), c, invariants)
     res = ctx.tlc("ChainMC", cfg, name=name, timeout=timeout)
+    if res.violated:
+        raise vlib.ToolError("spec invariant %s violated in the design check %s: see %s" % (res.violated, name, res.outfile))
     return res
 
 
@@ -32,10 +34,14 @@ def export(ctx, name, c, invariants, tags, timeout=3000):
     c = dict(c)
     c["ExportOn"] = True
     cfg = vlib.write_cfg(os.path.join(ctx.work, name + ".cfg"), c, list(invariants) + ["ExportForged", "ExportHonest"])
-    return ctx.tlc("ChainMC", cfg, name=name, tags=tags, timeout=timeout, seed=ctx.seed)
+    res = ctx.tlc("ChainMC", cfg, name=name, tags=tags, timeout=timeout, seed=ctx.seed)
+    if res.violated:
+        raise vlib.ToolError("spec invariant %s violated in the export run %s: see %s" % (res.violated, name, res.outfile))
+    os.remove(res.outfile)   # can be large
+    return res
 
 
-def replay_forged(ctx, path, prop_filter=None):
+def replay_forged(ctx, path, weakness_relevant=lambda weak, row: True):
     """Replays exported adversary tokens on the real library; returns (rows, stats)."""
     out = path + ".verdict"
     p = vlib.vh("chain-forged", path, out)
@@ -56,6 +62,9 @@ def replay_forged(ctx, path, prop_filter=None):
             # a named weakness of the design: confirmed when the real code accepts too
             real_rejects = [p for p in problems if "spec accepts" in p]
             others = [p for p in problems if "spec accepts" not in p]
+            if not problems and not weakness_relevant(weak, r):
+                stats["weakness-not-relevant:" + weak] += 1
+                continue
             if not problems:
                 stats["weakness-confirmed:" + weak] += 1
                 ctx.finding("design:" + weak,
